@@ -8,9 +8,9 @@ export GOPROXY=off GOSUMDB=off GOTOOLCHAIN=local
 cd $W || exit 2
 git checkout -q -- . ; git clean -fdq -e _seed -e TASK.md
 for f in _seed/${DEMO:-*_test.go}; do cp "$f" "$PKG/zz_seed_$(basename $f)"; done
-orig=$(go test -vet=off -count=1 -run "$T" ./$PKG/ 2>&1 | tail -3); echo "ORIGINAL: $orig" | tail -2
+orig=$(go test ${RACE:+-race} -vet=off -count=1 -run "$T" ./$PKG/ 2>&1 | tail -3); echo "ORIGINAL: $orig" | tail -2
 git apply _seed/patch.diff || { echo "PATCH DOES NOT APPLY"; exit 2; }
-mut=$(go test -vet=off -count=1 -run "$T" ./$PKG/ 2>&1 | tail -4); echo "MUTATED: $mut" | tail -3
+mut=$(go test ${RACE:+-race} -vet=off -count=1 -run "$T" ./$PKG/ 2>&1 | tail -4); echo "MUTATED: $mut" | tail -3
 rm -f $PKG/zz_seed_*
 build=$(go build ./... 2>&1 | tail -2; (cd api && go build ./... 2>&1 | tail -2))
 suite=$(go test -vet=off -count=1 ./api/... ./pkg/... ./controllers/extendeddaemonset/... ./controllers/extendeddaemonsetreplicaset/... ./controllers/extendeddaemonsetsetting/... ./controllers/podtemplate/... ./cmd/... 2>&1 | grep -v "no test files" | grep -v "^ok" | head -5; (cd api && go test -vet=off -count=1 ./... 2>&1 | grep -v "no test files" | grep -v "^ok" | head -3))
